@@ -129,6 +129,13 @@ def small_lps(rng, quick):
     for _ in range(40 if quick else 600):
         lp = gen.random_lp(rng, m=rng.rint(2, 4), n=rng.rint(2, 5), dens=0.7, coef="mixed" if rng.chance(0.5) else "small")
         lps.append(("random rational", lp))
+    # bound patterns where one bound is exactly 0 and the other is not (and fixed at a non-zero value): the places where
+    # "is the bound non-zero" shortcuts in the basic-solution and dual-objective code can go wrong
+    r2 = rng.fork("zero-bounds")
+    for kind, lp in lps:
+        for c in lp.cols:
+            if r2.chance(0.12):
+                c[1], c[2] = r2.choice([(F(-5), F(0)), (F(-1, 2), F(0)), (F(0), F(3)), (NINF, F(0)), (F(3), F(3)), (F(-2), F(-2)), (F(2), INF)])
     def wf(lp):
         return all(c[1] == NINF or c[2] == INF or F(c[1]) <= F(c[2]) for c in lp.cols) and all(F(r[2]) >= 0 for r in lp.rows) and lp.rows and lp.cols
     return [(k, lp) for k, lp in lps if wf(lp)]
